@@ -13,6 +13,9 @@ package main
 
 import (
 	"fmt"
+
+	"github.com/apache/arrow-go/v18/arrow"
+	"github.com/apache/arrow-go/v18/arrow/array"
 	"io"
 	"log/slog"
 	"runtime"
@@ -39,6 +42,8 @@ type caseT struct {
 	Pipelined bool            `json:"pipelined,omitempty"`
 	RequestID string          `json:"request_id"`
 	LogLevel  string          `json:"log_level,omitempty"`
+	Probe     string          `json:"probe,omitempty"`     // domain-audit probe arm
+	ProbeVal  string          `json:"probe_val,omitempty"` // metadata key / cancel value used by the probe
 }
 
 var shapes = []string{"complete", "fail-error", "fail-panic", "fail-none", "fail-emit2", "finish-variant", "cancel", "early-eos",
@@ -125,7 +130,50 @@ func genCase(r *mon.Run, i int) caseT {
 	if rng.IntN(3) == 0 {
 		c.LogLevel = svc.Levels[1+rng.IntN(5)]
 	}
+	// Domain-audit probe arm (every 21st case): input sequences the main
+	// generator never drew although "all input sequences" covers them.
+	if i%21 == 13 {
+		probes := []string{"input-framework-meta", "cancel-batch-with-rows", "producer-tick-with-data", "nullable-flag-schema"}
+		c.Probe = probes[(i/21)%len(probes)]
+		c.Shape = "probe"
+		o := svc.StreamOpt{Producer: c.Producer, Turns: 1 + rng.IntN(4), FailAt: -1}
+		c.Script = svc.GenStream(rng, fmt.Sprintf("c06-%d", i), o)
+		c.Inputs = svc.GenInputs(rng, o.Turns+1)
+		c.Variant, c.CancelAt, c.Pipelined = "", -1, false
+		if !c.Producer {
+			c.Variant = "exact"
+		}
+		if c.Probe == "producer-tick-with-data" && !c.Producer {
+			c.Probe = "nullable-flag-schema"
+		} else if c.Probe == "nullable-flag-schema" && c.Producer {
+			c.Probe = "producer-tick-with-data"
+		}
+		switch c.Probe {
+		case "input-framework-meta":
+			keys := []string{wire.KeyLogLevel, wire.KeyRequestID, wire.KeyStreamState, wire.KeyCallState, wire.KeyMethod, wire.KeyServerID, wire.KeyErrorKind, wire.KeyRequestVersion, wire.KeyLogMessage}
+			c.ProbeVal = keys[(i/84)%len(keys)]
+		case "cancel-batch-with-rows":
+			c.ProbeVal = []string{"true", "", "1", "yes"}[(i/84)%4]
+			c.CancelAt = rng.IntN(len(c.Inputs))
+			for k := range c.Inputs {
+				if len(c.Inputs[k].X) == 0 {
+					c.Inputs[k] = svc.InputSpec{X: []int64{7, 8}, W: []float64{1.5, 2.5}}
+				}
+			}
+		}
+	}
 	return c
+}
+
+// nullableInput is svc.InSchema with both fields flagged nullable (no nulls
+// inside) and schema-level metadata: unequal to the declared schema, trivially
+// castable to it.
+func nullableInput(in svc.InputSpec) arrow.RecordBatch {
+	b := svc.BuildInput(in, "exact")
+	defer b.Release()
+	md := arrow.NewMetadata([]string{"origin"}, []string{"probe"})
+	sc := arrow.NewSchema([]arrow.Field{{Name: "x", Type: arrow.PrimitiveTypes.Int64, Nullable: true}, {Name: "w", Type: arrow.PrimitiveTypes.Float64, Nullable: true}}, &md)
+	return array.NewRecordBatch(sc, b.Columns(), b.NumRows())
 }
 
 func (c caseT) call() svc.Call {
@@ -147,6 +195,30 @@ func (c caseT) streamCall() wire.StreamCall {
 		}
 		if !c.Producer && !x.Cancel {
 			x.Batch = svc.BuildInput(in, c.Variant)
+		}
+		switch c.Probe {
+		case "input-framework-meta":
+			x.Meta = [][2]string{{"user.key", "1"}, {c.ProbeVal, "probe-value"}}
+		case "producer-tick-with-data": // ticks that carry columns and rows
+			sc.InputSchema = svc.InSchema
+			x.Batch = svc.BuildInput(in, "exact")
+		case "nullable-flag-schema":
+			x.Batch.Release()
+			x.Batch = nullableInput(in)
+			sc.InputSchema = x.Batch.Schema()
+		case "cancel-batch-with-rows": // the cancel key on a batch that is NOT empty
+			if c.Producer {
+				sc.InputSchema = svc.InSchema
+			}
+			if x.Cancel || c.Producer {
+				x.Cancel, x.CancelValue = false, nil
+				x.Batch = svc.BuildInput(in, "exact")
+			}
+			if k == c.CancelAt {
+				x.Meta = [][2]string{{wire.KeyCancel, c.ProbeVal}}
+				sc.Inputs = append(sc.Inputs, x)
+				return sc
+			}
 		}
 		sc.Inputs = append(sc.Inputs, x)
 		if x.Cancel {
@@ -297,6 +369,9 @@ var (
 func classes(r *mon.Run, c caseT, pred svc.Pred, kind string) {
 	r.Class("kind." + kind)
 	r.Class("shape." + c.Shape)
+	if c.Probe != "" {
+		r.Class("probe." + c.Probe)
+	}
 	if pred.Header != nil {
 		r.Class("header.present")
 	} else {
@@ -400,7 +475,8 @@ func main() {
 		"finish-on-exchange.observed", "second-emit.observed",
 		"input.int32", "input.float32", "input.decimal", "input.both", "input.badname", "input.badtype", "input.extracol", "input.fewer",
 		"turns.>=2-data", "turns.zero-data", "turn.logs-before-data", "turn.emit-with-metadata", "init.logs",
-		"client.pipelined", "client.lockstep", "sentinel.same-value-different-request-id")
+		"client.pipelined", "client.lockstep", "sentinel.same-value-different-request-id",
+		"probe.input-framework-meta", "probe.cancel-batch-with-rows", "probe.producer-tick-with-data", "probe.nullable-flag-schema")
 	for _, k := range svc.ErrKinds {
 		r.Require("error." + k)
 	}
